@@ -21,7 +21,7 @@ from __future__ import annotations
 import ast
 import copy
 from dataclasses import dataclass, field
-from typing import Dict, Iterable, List, Optional, Sequence, Tuple
+from typing import Set, Dict, Iterable, List, Optional, Sequence, Tuple
 
 from .model import FuncInfo, dotted, unparse
 
@@ -249,7 +249,56 @@ class FuncFacts:
         self.order: List[StmtInfo] = []
         self.exit_envs: List[Tuple[ast.stmt, Dict[str, ast.AST], List[Atom]]] = []
         env: Dict[str, ast.AST] = dict(params_env or {})
+        self.const_flags = self._find_const_flags(fi.node)
         self._walk_block(fi.node.body, env, [], (), (), ())
+
+    @staticmethod
+    def _find_const_flags(fn) -> Dict[str, List[Tuple[bool, ast.stmt]]]:
+        """local names whose EVERY binding is a literal True / False (flags set in branches): name -> [(value, statement)]."""
+        defs: Dict[str, List] = {}
+        bad: Set[str] = set()
+
+        def note(t, v, st):
+            if isinstance(t, ast.Name):
+                if isinstance(v, ast.Constant) and isinstance(v.value, bool):
+                    defs.setdefault(t.id, []).append((v.value, st))
+                else:
+                    bad.add(t.id)
+            elif isinstance(t, (ast.Tuple, ast.List)):
+                if isinstance(v, (ast.Tuple, ast.List)) and len(v.elts) == len(t.elts):
+                    for a, b in zip(t.elts, v.elts):
+                        note(a, b, st)
+                else:
+                    for a in t.elts:
+                        note(a, None, st)
+        todo = list(fn.body)
+        while todo:
+            n = todo.pop()
+            if isinstance(n, (ast.FunctionDef, ast.AsyncFunctionDef, ast.ClassDef, ast.Lambda)):
+                bad.add(getattr(n, "name", ""))
+                continue
+            if isinstance(n, ast.Assign):
+                for t in n.targets:
+                    note(t, n.value, n)
+            elif isinstance(n, ast.AnnAssign) and n.value is not None:
+                note(n.target, n.value, n)
+            elif isinstance(n, ast.AugAssign):
+                note(n.target, None, n)
+            elif isinstance(n, (ast.For, ast.AsyncFor)):
+                note(n.target, None, n)
+            elif isinstance(n, (ast.With, ast.AsyncWith)):
+                for it in n.items:
+                    if it.optional_vars is not None:
+                        note(it.optional_vars, None, n)
+            elif isinstance(n, ast.NamedExpr):
+                note(n.target, None, n)
+            elif isinstance(n, ast.ExceptHandler) and n.name:
+                bad.add(n.name)
+            todo.extend(ast.iter_child_nodes(n))
+        a = fn.args
+        for x in a.posonlyargs + a.args + a.kwonlyargs:
+            bad.add(x.arg)
+        return {k: v for k, v in defs.items() if k not in bad}
 
     # -- helpers ------------------------------------------------------------
     def at(self, stmt: ast.stmt) -> StmtInfo:
@@ -508,7 +557,23 @@ class FuncFacts:
         return env, facts
 
     def _resolved_atoms(self, test, env, positive) -> List[Atom]:
-        return atoms_of(resolve(test, env), positive)
+        out = atoms_of(resolve(test, env), positive)
+        # a flag that is only ever bound to literal True / False: `flag` being true implies everything that held at EVERY
+        # place where it is set to True (the conditions those assignments are nested in) - and dually for false
+        t, pos = test, positive
+        while isinstance(t, ast.UnaryOp) and isinstance(t.op, ast.Not):
+            t, pos = t.operand, not pos
+        if isinstance(t, ast.Name) and t.id in self.const_flags:
+            sites = [st for val, st in self.const_flags[t.id] if val is pos]
+            if sites and all(id(st) in self.info for st in sites):
+                common = None
+                for st in sites:
+                    fs = [f for f in self.info[id(st)].facts]
+                    common = fs if common is None else [f for f in common if f in fs]
+                for f in common or []:
+                    if f not in out:
+                        out.append(f)
+        return out
 
 
 def _strip_walrus(e: ast.AST) -> ast.AST:
